@@ -28,6 +28,7 @@ type Job struct {
 	NoEnd    bool // the harness is not expected to reach "end" on any path
 	NoNative bool // skip native translator validation for this job
 	Weight   int
+	Solver   string // "" = default (z3-new), "cvc5"
 }
 
 func (j *Job) name() string {
@@ -225,7 +226,14 @@ func runOneJob(l *sym.Loaded, job *Job, timeoutMs int, nValid int, seed int64) (
 		return
 	}
 	st := sym.NewStore()
-	sol := sym.NewSolver(st, solverCmd(), timeoutMs)
+	cmd := solverCmd()
+	if job.Solver == "cvc5" {
+		cmd = []string{"cvc5", "--incremental", "--produce-models", "--lang", "smt2", fmt.Sprintf("--tlimit-per=%d", timeoutMs*5)}
+	}
+	if job.Solver == "cvc5-int" {
+		cmd = []string{"cvc5", "--incremental", "--produce-models", "--lang", "smt2", "--solve-bv-as-int=sum", fmt.Sprintf("--tlimit-per=%d", timeoutMs*2)}
+	}
+	sol := sym.NewSolver(st, cmd, timeoutMs)
 	defer sol.Close()
 	if d := os.Getenv("VERIF_SMTLOG_DIR"); d != "" {
 		if f, err := os.Create(filepath.Join(d, sanitize(job.name())+".smt2")); err == nil {
